@@ -364,11 +364,16 @@ func runC08(r *Run) {
 	for i := r.N(60, 1000); i > 0; i-- {
 		apiCases = append(apiCases, apiCase{"legacy", cutAt(stdStream, mkCuts())})
 	}
+	// a client that sends its first chunk together with the request head
+	for i := r.N(6, 60); i > 0; i-- {
+		apiCases = append(apiCases, apiCase{"legacy-eager", cutAt(stdStream, mkCuts())})
+	}
+	apiCases = append(apiCases, apiCase{"legacy-eager", std})
 	for _, ac := range apiCases {
 		var res *apiResult
 		for attempt := 0; attempt < 3; attempt++ {
 			res = runTunnelAPI(ac.kind, gws, ac.segs, listeners, 3*time.Second)
-			if res.inconclusive == "" && (ac.kind != "legacy" || len(res.pkts) > 0) {
+			if res.inconclusive == "" && (!strings.HasPrefix(ac.kind, "legacy") || len(res.pkts) > 0) {
 				break
 			}
 		}
@@ -387,6 +392,31 @@ func runC08(r *Run) {
 			}
 			r.Violation("c08-api-effects", "over the real "+ac.kind+" transport the gateway's responses or the bytes relayed to the host depend on the segmentation of the client's byte stream",
 				fmt.Sprintf("transport: %s\nsegments (one message/chunk each): %s\nresponses: %s\nhost bytes: %s\nreference responses: %s\nreference host bytes: %s\n", ac.kind, hxList(ac.segs), got, hx(res.hostBytes), refS, hx(refHost)))
+		}
+	}
+	// a long exchange: many legal packets, delivered one per message, or coalesced into messages far
+	// larger than any single packet may be
+	bulk := append([][]byte{}, std[:4]...)
+	for k := 0; k < 45; k++ {
+		bulk = append(bulk, mkPacket(tData, bodyData(bytes.Repeat([]byte{byte(k + 1)}, 4000))))
+	}
+	bulk = append(bulk, mkPacket(tClose, nil))
+	bulkStream := bytes.Join(bulk, nil)
+	bulkRef := runTunnelAPI("ws", gws, bulk, listeners, 4*time.Second)
+	for _, bc := range []struct {
+		kind string
+		cuts []int
+	}{{"ws", nil}, {"ws", []int{len(bulkStream) / 2}}, {"ws", []int{150, 140000}}, {"legacy", []int{60000, 120000}}, {"legacy", nil}} {
+		res := runTunnelAPI(bc.kind, gws, cutAt(bulkStream, bc.cuts), listeners, 4*time.Second)
+		if res.inconclusive != "" || bulkRef.inconclusive != "" || (bc.kind == "legacy" && len(res.pkts) == 0) {
+			r.Inconclusive()
+			continue
+		}
+		r.Count(fmt.Sprintf("api-bulk:%s:%v", bc.kind, bc.cuts))
+		r.Dist("api-bulk:" + bc.kind)
+		if pktsCanon(res.pkts) != pktsCanon(bulkRef.pkts) || !bytes.Equal(res.hostBytes, bulkRef.hostBytes) {
+			r.Violation("c08-api-effects", "over the real "+bc.kind+" transport the gateway's responses or the bytes relayed to the host depend on the segmentation of the client's byte stream",
+				fmt.Sprintf("transport: %s; %d packets (%d bytes: handshake, tunnel, authorization, channel, 45 DATA of 4000 bytes, close) delivered as messages/chunks cut at %v\nresponses: %s\nhost received %d bytes, reference (one packet per message) %d bytes\nreference responses: %s\n", bc.kind, len(bulk), len(bulkStream), bc.cuts, pktsCanon(res.pkts), len(res.hostBytes), len(bulkRef.hostBytes), pktsCanon(bulkRef.pkts)))
 		}
 	}
 	if drift > 0 && !r.HasViolation() {
